@@ -134,6 +134,27 @@ func runC04(e *Env) error {
 		r.Seen("esc:"+src, true)
 		r.Hit("escaped-openers")
 	}
+	// (b3) literal text of a macro body, escaped openers included, is what the same text is at the top level
+	for i := 0; i < e.N(60, 2000) && !r.Full(); i++ {
+		var sb strings.Builder
+		for k := 1 + rg.Intn(3); k > 0; k-- {
+			sb.WriteString(pick(rg, []string{"a ", "Write ", "é", "{ ", "} "}))
+			sb.WriteString(pick(rg, []string{"\\{{ v }}", "\\{{ v|upper }}", "\\{% if v %}", "\\{# v #}", "{{ v }}", "\\{{v}}", "\\{{ w }}"}))
+			sb.WriteString(pick(rg, []string{" b", "", "!"}))
+		}
+		body := sb.String()
+		top := renderSrc(body, map[string]any{"v": "ARG", "w": "W"})
+		inMacro := renderSrc("{% macro m(v) %}"+body+"{% endmacro %}{{ m('ARG') }}|{{ _self.m('ARG') }}", map[string]any{"w": "W"})
+		r.Seen("macro-text:"+body, true)
+		r.Hit("macro-body-text")
+		if top.Class != inMacro.Class || (top.Class == "" && inMacro.Out != top.Out+"|"+top.Out) {
+			if r.Violate(Violation{Key: "chunks-not-exact", What: fmt.Sprintf("the text %q renders %q (%s) at the top level and %q (%s) as a macro body called twice", body, top.Out, top.Class, inMacro.Out, inMacro.Class),
+				Broken: "theorem C04_chunks (literal text is emitted wherever it stands; implementation-only metamorphic oracle)",
+				Replay: map[string]any{"kind": "src", "src": body, "top": top.Out, "in_macro": inMacro.Out}}) {
+				break
+			}
+		}
+	}
 	// (d) verbatim bodies
 	n = e.N(300, 10000)
 	for i := 0; i < n && !r.Full(); i++ {
